@@ -128,9 +128,9 @@ def two_runs(vec, st, sc, ms, oracle, V, S, norm_fresh=True, clock=False):
 
 
 def _adv_set_class(decider):
-    """A set whose iteration order is chosen by the decider (insertion order,
-    reversed, rotated by one, or both - one choice for the whole run): a
-    sample of what a different PYTHONHASHSEED does to
+    """A set whose iteration order is determined by its elements and a salt
+    chosen by the decider (one of four, once per run): a sample of what a
+    different PYTHONHASHSEED does to
     a set of strings or nodes.  Installed as the name ``set`` in the ddsmt
     modules, so ``set(...)`` calls build it (set displays and
     comprehensions do not - stated in the evidence)."""
@@ -156,15 +156,16 @@ def _adv_set_class(decider):
         def __iter__(self):
             items = list(self._d)
             if len(items) > 1:
-                # one global choice of order for the whole run (two bits):
-                # insertion order, reversed, rotated, reversed and rotated
+                # the order is a function of the elements and of a salt
+                # chosen once per run (two bits: four salts) - like the
+                # iteration order of a hashed set under a hash seed
                 if not mode:
-                    mode.append((decider.bit(), decider.bit()))
-                rev, rot = mode[0]
-                if rot:
-                    items = items[1:] + items[:1]
-                if rev:
-                    items.reverse()
+                    mode.append(2 * int(decider.bit()) + int(decider.bit()))
+                salt = 'ABCD'[mode[0]]
+                import hashlib
+                items.sort(key=lambda x: hashlib.md5(
+                    (salt + (x if isinstance(x, str) else x.__str__()))
+                    .encode('utf8', 'replace')).digest())
             return iter(items)
 
         def add(self, x):
@@ -206,10 +207,14 @@ def _adv_set_class(decider):
     return AdvSet
 
 
-def setorder_runs(vec, st, sc, V, S, oracle='hash0'):
+def setorder_runs(vec, st, sc, V, S, oracle='hash0', ms='all'):
     """The same run with every ``set(...)`` of the ddsmt modules iterating
     in insertion order, and in an order chosen by the decider."""
     import sys
+    # every ddsmt module must be loaded before the name ``set`` is replaced
+    from ddsmt import cli, mutators as _m        # noqa: F401
+    for _g, (_mod, _reg) in _m.get_all_mutators().items():
+        pass
     outs = []
     read = set()
     for quiet in (True, False):
@@ -222,7 +227,7 @@ def setorder_runs(vec, st, sc, V, S, oracle='hash0'):
         for m in mods:
             m.__dict__['set'] = cls
         try:
-            env = SC.setup(d, st, 1, V, sc, 'all', oracle=oracle,
+            env = SC.setup(d, st, 1, V, sc, ms, oracle=oracle,
                            maxwrites=60, norm_fresh=True)
             env.mp.d = _Quiet()
             try:
@@ -249,13 +254,13 @@ def setorder_runs(vec, st, sc, V, S, oracle='hash0'):
     return None, read
 
 
-def make_setorder(st, sc, tier, oracle='hash0'):
+def make_setorder(st, sc, tier, oracle='hash0', ms='all'):
     V, S = (8, 2) if tier == "quick" else (10, 2)
 
     def run():
         from vlib.engine import explore_choices
         return explore_choices(
-            lambda vec: setorder_runs(vec, st, sc, V, S, oracle), V + S,
+            lambda vec: setorder_runs(vec, st, sc, V, S, oracle, ms), V + S,
             budget_s=170 if tier == 'quick' else 850)
     return run
 
@@ -331,7 +336,8 @@ def run_hashseed(tier):
     repo = os.environ.get('VERIF_REPO', '/repo')
     cfgs = [('hierarchical', 'a'), ('hierarchical', 'b'), ('hybrid', 'd'),
             ('ddmin', 'c'), ('hierarchical', 'e'), ('hierarchical', 'g'),
-            ('hybrid', 'g'), ('hierarchical', 'm'), ('ddmin', 'm')]
+            ('hybrid', 'g'), ('hierarchical', 'm'), ('ddmin', 'm'),
+            ('hierarchical', 'q'), ('ddmin', 'n')]
     seeds = [0, 1, 2, 3, 7, 11] if tier == 'quick' else list(range(24))
     results = {}
     bad = None
@@ -403,13 +409,23 @@ def partitions(tier):
                           'bounds': {'strategy': st, 'script': sc,
                                      'mutators': ms, 'oracle': oracle,
                                      'clock': 'perturbed', **bounds(tier)}})
-    for (st, sc, orc) in [('hierarchical', 'm', 'hash0'),
+    for _cfg in [('hierarchical', 'm', 'hash0'),
                           ('ddmin', 'm', 'hash0'), ('hybrid', 'g', 'hash0'),
                           ('ddmin', 'b', 'hash0'), ('hierarchical', 'd', 'hash0'),
                           ('ddmin', 'n', 'hash0'), ('ddmin', 'n', 'hash1'),
-                          ('hierarchical', 'n', 'hash1')]:
-        parts.append({'name': f'setorder_{st}_{sc}_{orc}', 'kind': 'choices',
-                      'run': make_setorder(st, sc, tier, orc),
+                          ('hierarchical', 'n', 'hash1'),
+                          ('hierarchical', 'q', 'hash0'),
+                          ('hierarchical', 'q', 'hash1'),
+                          ('ddmin', 'q', 'hash1'),
+                          ('hierarchical', 'q', 'hash0', 'late'),
+                          ('hierarchical', 'q', 'hash1', 'late'),
+                          ('ddmin', 'q', 'hash0', 'late'),
+                          ('hierarchical', 'g', 'hash0', 'bvbool'),
+                          ('hierarchical', 'b', 'hash0', 'elim')]:
+      for (st, sc, orc, ms) in [tuple(list(_cfg) + ['all'])[:4]]:
+        parts.append({'name': f'setorder_{st}_{sc}_{orc}'
+                      + ('' if ms == 'all' else '_' + ms), 'kind': 'choices',
+                      'run': make_setorder(st, sc, tier, orc, ms),
                       'budget_s': 170 if tier == 'quick' else 850,
                       'bounds': {'strategy': st, 'script': sc,
                                  'mutators': 'all', 'set_order': 'adversarial'}})
@@ -440,11 +456,13 @@ def replay(part, cex):
         from harness import c10
         return c10.replay('golden_' + part[6:] + '_gto0', cex)
     if part.startswith('setorder_'):
-        _, st, sc, orc = part.split('_')
+        f = part.split('_')
+        st, sc, orc = f[1:4]
+        ms = f[4] if len(f) > 4 else 'all'
         tier = os.environ.get('VERIF_TIER_REPLAY', 'quick')
         V, S = (8, 2) if tier == "quick" else (10, 2)
         try:
-            r, _ = setorder_runs(cex['bits'], st, sc, V, S, orc)
+            r, _ = setorder_runs(cex['bits'], st, sc, V, S, orc, ms)
         except Exception as e:
             return f'{type(e).__name__}: {e}'
         return None if r in (None, 'skip') else r
